@@ -83,6 +83,20 @@ Definition effective (m : mode) (k : kind) (st : stmt_opts) (pr : profile_opts) 
              else Some (mkFields cl serial None ts ks None timeout retry rowf lbp plan)
   end.
 
+(* Can the request be encoded at this protocol version?  The encoder (cassandra/protocol.py) never drops an option it
+   was given: a version that cannot carry it makes send_body raise UnsupportedOperation.
+   BATCH below v3 has no flags byte (no serial consistency / timestamp / keyspace); QUERY/EXECUTE on v1 carry neither
+   serial consistency nor paging.  (Keyspace and timestamp are already gated by `effective`.) *)
+Definition truthy (o : option Z) : bool := match o with Some v => negb (v =? 0) | None => false end.
+Definition is_some (o : option Z) : bool := match o with Some _ => true | None => false end.
+Definition encodes (k : kind) (f : fields) (pv : Z) : bool :=
+  match k with
+  | Batch => if pv <? 3 then negb (truthy (m_serial f) || is_some (m_ts f) || is_some (m_keyspace f)) else true
+  | _ => if pv <? 2 then negb (truthy (m_serial f) || truthy (m_fetch f) || is_some (m_paging f)) else true
+  end.
+Definition encodes_opt (k : kind) (o : option fields) (pv : Z) : bool :=
+  match o with Some f => encodes k f pv | None => true end.
+
 (* ---------- comparison helpers ---------- *)
 Definition oz_eqb (a b : option Z) : bool :=
   match a, b with Some x, Some y => x =? y | None, None => true | _, _ => false end.
